@@ -412,9 +412,10 @@ def gen_poset(R):
             for j in range(i + 1, r):
                 if R.rng.random() < dens:
                     edge(i, j)
-    wkind = R.rng.choice(["small", "small", "pm1", "wide", "zeroes"])
+    wkind = R.rng.choice(["small", "small", "pm1", "wide", "zeroes", "huge"])
+    # "huge": weights of the order of 10^10, beyond 32 bits and far below the "infinite" capacity sys.maxsize of the precedence edges
     ws = [R.rng.randint(-4, 4) if wkind == "small" else R.rng.choice([-1, 1]) if wkind == "pm1" else R.rng.randint(-40, 40) if wkind == "wide"
-          else R.rng.choice([0, 0, -2, 3]) for _ in range(r)]
+          else R.rng.randint(-3 * 10 ** 10, 3 * 10 ** 10) if wkind == "huge" else R.rng.choice([0, 0, -2, 3]) for _ in range(r)]
     n = 2 * r
     V1 = [[0] * n for _ in range(n)]
     V2 = [[0] * n for _ in range(n)]
